@@ -78,9 +78,10 @@ fn run_random<K: KeyT, V: ValT>(a: &Args) {
         let hm = if a.m.contains_key("hm") { a.num("hm", 0) as u8 } else { (run % 3) as u8 };
         let nkeys = if a.m.contains_key("nkeys") { a.num("nkeys", 40) as u32 } else { [12u32, 24, 40, 60][(run / 3 % 4) as usize] };
         let mut g = gen::Gen {
-            cfg: gen::GenCfg { nkeys, set: a.flag("set"), two: a.flag("two"), hm, limits: a.flag("limits") },
+            cfg: gen::GenCfg { nkeys, set: a.flag("set"), two: a.flag("two"), hm, limits: a.flag("limits"), zst: K::NAME == "zst" },
             rng: SmallRng::seed_from_u64(seed.wrapping_mul(1000003).wrapping_add(run)),
         };
+        rebase_live();
         emit(&mut out, &json!({"op":"Reset","run":run,"hm":hm,"nkeys":nkeys}));
         for _ in 0..events {
             let op = g.next_op(&w);
@@ -95,7 +96,7 @@ fn run_random<K: KeyT, V: ValT>(a: &Args) {
             }
         }
         let live = live_ids();
-        emit(&mut out, &json!({"op":"EndRun","live_ids": live, "live_allocs": LIVE.load(std::sync::atomic::Ordering::Relaxed)}));
+        emit(&mut out, &json!({"op":"EndRun","live_ids": live, "live_allocs": live_tables()}));
     }
 }
 
@@ -104,6 +105,7 @@ fn run_script<K: KeyT, V: ValT>(a: &Args) {
     let f = std::fs::File::open(a.get("script", "")).expect("script");
     let mut w: World<K, V> = World::new(4, a.num("content-limit", 64) as usize);
     emit(&mut out, &header::<K>(a, json!({"mode":"script"})));
+    rebase_live();
     for line in std::io::BufReader::new(f).lines() {
         let line = line.unwrap();
         if line.trim().is_empty() {
@@ -114,11 +116,12 @@ fn run_script<K: KeyT, V: ValT>(a: &Args) {
             "Header" => continue,
             "Reset" => {
                 w = World::new(4, a.num("content-limit", 64) as usize);
+                rebase_live();
                 emit(&mut out, &op);
             }
             "EndRun" => {
                 let live = live_ids();
-                emit(&mut out, &json!({"op":"EndRun","live_ids": live, "live_allocs": LIVE.load(std::sync::atomic::Ordering::Relaxed)}));
+                emit(&mut out, &json!({"op":"EndRun","live_ids": live, "live_allocs": live_tables()}));
             }
             _ => {
                 // strip observation fields so that a recorded trace can be used as a script
